@@ -330,6 +330,14 @@ func (e *Engine) Solve(o *Oblig, opts SolveOpts, stats *SolveStats, prep *sync.M
 				assumps = e.instantiate(assumps, goal, facts)
 			}
 			assumps, goal, _ = e.propagateEqs(assumps, goal)
+			if goal.IsTrue() {
+				o.Verdict, o.Solver = "unsat", "dgv-simplifier"
+				return
+			}
+			if e.linearDischarge(assumps, goal) {
+				o.Verdict, o.Solver = "unsat", "dgv-interval"
+				return
+			}
 		}
 		hdr := fmt.Sprintf("; obligation %s\n; function %s\n; position %s\n; path %s\n", o.ID, o.Fn, o.Pos, o.Path)
 		var gv []*Term
@@ -345,6 +353,13 @@ func (e *Engine) Solve(o *Oblig, opts SolveOpts, stats *SolveStats, prep *sync.M
 		script = e.C.EmitSMT(assumps, goal, hdr, true, gv)
 	}()
 	prep.Unlock()
+	if o.Verdict == "unsat" && strings.HasPrefix(o.Solver, "dgv-") {
+		stats.mu.Lock()
+		stats.Queries++
+		stats.PerSolver[o.Solver]++
+		stats.mu.Unlock()
+		return
+	}
 	if script == "" {
 		return
 	}
@@ -358,7 +373,11 @@ func (e *Engine) Solve(o *Oblig, opts SolveOpts, stats *SolveStats, prep *sync.M
 		return
 	}
 	o.SMTFile = file
-	v, out, secs := runSolver(Solvers[0], file, opts.Timeout)
+	timeout := opts.Timeout
+	if sp := e.Specs[o.Fn]; sp != nil && sp.Timeout > timeout {
+		timeout = sp.Timeout
+	}
+	v, out, secs := runSolver(Solvers[0], file, timeout)
 	o.Solver, o.Secs = Solvers[0].Name, secs
 	if v == "unknown" {
 		// race the other two
@@ -370,7 +389,7 @@ func (e *Engine) Solve(o *Oblig, opts SolveOpts, stats *SolveStats, prep *sync.M
 		for _, s := range Solvers[1:] {
 			s := s
 			go func() {
-				v, out, secs := runSolver(s, file, opts.Timeout)
+				v, out, secs := runSolver(s, file, timeout)
 				ch <- res{v, out, s.Name, secs}
 			}()
 		}
